@@ -428,6 +428,20 @@ func CreateDB(dbName string) error {
 }
 
 func (rs *RelationService) CreateTable(r *Relation, tableName string) error {
+	if err := rs.createTable(r, tableName); err != nil {
+		return err
+	}
+
+	return rs.fs.flushPages()
+}
+
+// createTable adds the table to the catalog. It holds the shared lock like any
+// other statement so that the background flusher cannot write out (or race
+// with) a half-made table.
+func (rs *RelationService) createTable(r *Relation, tableName string) error {
+	rs.fs.lockShared()
+	defer rs.fs.unlockShared()
+
 	_, err := rs.getRelationFileOffset(tableName)
 	if err != ErrTableNotExist {
 		return ErrTableAlreadyExist
@@ -440,11 +454,7 @@ func (rs *RelationService) CreateTable(r *Relation, tableName string) error {
 	if err := rs.insertPageTable(pg, tableName); err != nil {
 		return err
 	}
-	if err := rs.insertSchemaTable(r, tableName); err != nil {
-		return err
-	}
-
-	return rs.fs.flushPages()
+	return rs.insertSchemaTable(r, tableName)
 }
 
 func (rs *RelationService) createPage() (*btreeNode, error) {
